@@ -127,6 +127,14 @@ PROPERTIES['C14'] = {
     'level_note': _SEL_NOTE + ' The documented order is asserted only where docs/special/comments.md is unambiguous (same indentation read as indentation class, as beancount does).',
 }
 
+PROPERTIES['C15'] = {
+    'modules': ['harness.c15_construct'], 'budget': {'quick': 1500, 'thorough': 3300},
+    'level_text': 'Solver-enumerated constructor argument combinations for every class with from_value (arguments read from the real signatures; every '
+                  'subset of optional parts, empty/multi-element lists, strings needing escapes, negative numbers, nested constructed children, custom '
+                  'value sequences): the printed text parses as the type, the parsed dump equals the constructed dump, and the tree invariant holds.',
+    'level_note': _SEL_NOTE.replace('Four documents covering every directive class; one edit / perturbation (two non-editing operations in thorough).', 'Alternatives per argument are listed in harness/c15_construct.py.'),
+}
+
 NOT_APPLICABLE = {
     'C16': 'The property is about the operating system and C io layer behind editor.py (text-mode newline translation, pathlib/glob/'
            'os.unlink/os.makedirs, mtimes): none of it can be executed symbolically by CrossHair or encoded for z3, CrossHair forbids '
